@@ -320,7 +320,7 @@ Definition header_get (k : bytes) (hs : list (bytes * bytes)) : bytes :=
 
 (* filepath.Base on a non-empty name (unix): what follows the last '/', trailing slashes dropped *)
 Fixpoint drop_trailing_slash (r : bytes) : bytes :=          (* on the reversed string *)
-  match r with 47 :: r' => drop_trailing_slash r' | _ => r end.
+  match r with c :: r' => if c =? 47 then drop_trailing_slash r' else r | [] => [] end.
 Fixpoint take_until_slash (r : bytes) : bytes :=
   match r with [] => [] | c :: r' => if c =? 47 then [] else c :: take_until_slash r' end.
 Definition path_base (f : bytes) : bytes :=
